@@ -8,114 +8,11 @@ import (
 	"github.com/gobwas/ws"
 )
 
-// vItem is one top-level item of a valid stream: a control frame or a data message.
-type vItem struct {
-	control bool
-	op      byte
-	payload []byte  // control payload or whole message payload
-	inter   []vItem // control frames interleaved inside a fragmented message (in order)
-}
-
-// vGenStream builds a nondeterministic VALID frame stream of k frames (+ closing frames),
-// returning the wire bytes and the reference decomposition.
-func vGenStream(server bool, k int, maxPayload int, asciiText bool) ([]byte, []vItem) {
-	wire, items, _, _ := vGenStreamX(server, k, maxPayload, asciiText, true)
-	return wire, items
-}
-
-// vGenStreamX: with complete=false the stream is left as generated (possibly with an open
-// fragmented message, returned as cur when frag is true) and no sentinel is appended.
-func vGenStreamX(server bool, k int, maxPayload int, asciiText bool, complete bool) ([]byte, []vItem, bool, vItem) {
-	var wire []byte
-	var items []vItem
-	frag := false
-	var cur vItem
-	frame := func(fin bool, op byte, n int, tag string) []byte {
-		p := vBytes(tag, n)
-		f := vFrame{fin: fin, op: op, masked: server, payload: p}
-		if server {
-			f.key = [4]byte{vU8(tag + ".k0"), vU8(tag + ".k1"), vU8(tag + ".k2"), vU8(tag + ".k3")}
-		}
-		wire = append(wire, vEncode(f)...)
-		return p
-	}
-	text := func(p []byte) {
-		if asciiText {
-			for _, c := range p {
-				vAssume(c < 0x80)
-			}
-		}
-	}
-	for i := 0; i < k; i++ {
-		n := vChoose("plen", maxPayload+1)
-		if !frag {
-			kind := vChoose("kind", 6)
-			switch kind {
-			case 0, 1, 2, 3: // text final / text non-final / binary final / binary non-final
-				fin := kind%2 == 0
-				op := byte(1 + kind/2)
-				p := frame(fin, op, n, "f")
-				if op == 1 {
-					text(p)
-				}
-				cur = vItem{op: op, payload: append([]byte{}, p...)}
-				if fin {
-					items = append(items, cur)
-				} else {
-					frag = true
-				}
-			case 4:
-				p := frame(true, 9, n, "f")
-				items = append(items, vItem{control: true, op: 9, payload: p})
-			case 5:
-				p := frame(true, 10, n, "f")
-				items = append(items, vItem{control: true, op: 10, payload: p})
-			}
-		} else {
-			kind := vChoose("kindf", 4)
-			switch kind {
-			case 0, 1: // continuation final / non-final
-				fin := kind == 0
-				p := frame(fin, 0, n, "f")
-				if cur.op == 1 {
-					text(p)
-				}
-				cur.payload = append(cur.payload, p...)
-				if fin {
-					items = append(items, cur)
-					frag = false
-				}
-			case 2:
-				p := frame(true, 9, n, "f")
-				cur.inter = append(cur.inter, vItem{control: true, op: 9, payload: p})
-			case 3:
-				p := frame(true, 10, n, "f")
-				cur.inter = append(cur.inter, vItem{control: true, op: 10, payload: p})
-			}
-		}
-	}
-	if !complete {
-		return wire, items, frag, cur
-	}
-	if frag { // close the open message with a final (possibly empty) continuation
-		n := vChoose("plen", 2)
-		p := frame(true, 0, n, "f")
-		if cur.op == 1 {
-			text(p)
-		}
-		cur.payload = append(cur.payload, p...)
-		items = append(items, cur)
-	}
-	// sentinel message
-	p := frame(true, 2, 1, "sent")
-	items = append(items, vItem{op: 2, payload: p})
-	return wire, items, false, vItem{}
-}
-
 // vVariant picks one of three bounded sub-spaces (pairwise rather than full product):
-//  0: stream structure  — k frames, payload 0..2, whole reads, 16-byte caller buffer
-//  1: transport chunking — k-1 frames, chunk mode {1 byte, nondeterministic all/1/2 per read}
-//  2: caller buffer size — k-1 frames, whole reads, buffer {1,2}
+//
+//	0: stream structure  — k frames, payload 0..2, whole reads, 16-byte caller buffer
+//	1: transport chunking — k-1 frames, chunk mode {1 byte, nondeterministic all/1/2 per read}
+//	2: caller buffer size — k-1 frames, whole reads, buffer {1,2}
 func vVariant() (k, maxPayload, mode, B int) {
 	k = 3
 	if vTier() > 0 {
